@@ -36,13 +36,16 @@ def converters_from_data_files():
         if not os.path.isfile(p):
             continue
         text = unicodedata.normalize('NFC', open(p, encoding='utf-8-sig').read())
-        conv = {}
+        per_class = {}
         for line in text.split('\n'):
             line = line.rstrip('\r')
             if ' : ' not in line:
                 continue
             cls, sounds = line.split(' : ', 1)
-            for snd in sounds.split(', '):
+            per_class[cls] = sounds.split(', ')      # the file format is one line per class: a class given again replaces its earlier line
+        conv = {}
+        for cls, sounds in per_class.items():
+            for snd in sounds:
                 conv[snd] = cls
         out[model] = hashlib.sha256(repr(sorted(conv.items())).encode()).hexdigest()
     return out
@@ -56,11 +59,20 @@ def inventories_from_data_files():
     base = os.path.join(common.REPO, 'src', 'lingpy', 'data', 'models', 'dvt')
 
     def text(name):
-        return unicodedata.normalize('NFC', open(os.path.join(base, name), encoding='utf-8-sig').read()).replace('\n', '')
+        return unicodedata.normalize('NFC', open(os.path.join(base, name), encoding='utf-8-sig').read()).replace('\n', '')    # `base` as bound when called
     dia = ''.join(ch for ch in text('diacritics') if ch != '-')
     vow = ''.join(ch for ch in text('vowels') if ch not in dia)
     ton = text('tones')
-    return {k: hashlib.sha256(repr(v).encode()).hexdigest() for k, v in (('diacritics', dia), ('vowels', vow), ('tones', ton))}
+    out = {k: hashlib.sha256(repr(v).encode()).hexdigest() for k, v in (('diacritics', dia), ('vowels', vow), ('tones', ton))}
+    for k in ('diacritics', 'vowels', 'tones'):
+        out[k + ' (after switching the schema and back)'] = out[k]
+    out["load_dvt('')"] = hashlib.sha256(repr((dia, vow, ton)).encode()).hexdigest()
+    base = os.path.join(common.REPO, 'src', 'lingpy', 'data', 'models', 'dvt_el')
+    dia = ''.join(ch for ch in text('diacritics') if ch != '-')
+    vow = ''.join(ch for ch in text('vowels') if ch not in dia)
+    ton = text('tones')
+    out["load_dvt('evolaemp')"] = out["load_dvt('el')"] = hashlib.sha256(repr((dia, vow, ton)).encode()).hexdigest()
+    return out
 
 
 def cache_files(home):
